@@ -802,6 +802,11 @@ impl<Key, Value> CacheD<Key, Value>
 
     pub fn verif_buffer_queue_len(&self) -> usize { self.admission_policy.verif_buffer_queue_len() }
 
+    /// What `new` built: (capacity of the command queue, time-to-live shards, pool buffers, buffer capacity as configured)
+    pub fn verif_shape(&self) -> (Option<usize>, usize, usize, usize) {
+        (self.command_executor.verif_queue_capacity(), self.ttl_ticker.verif_try_shards().len(), self.pool.verif_buffers().len(), self.config.access_buffer_size.0)
+    }
+
     /// (eviction sample size, capacity of the access-buffer channel, weight charged for a time-to-live entry)
     pub fn verif_constants() -> (usize, usize, usize) {
         let (sample_size, channel_capacity) = AdmissionPolicy::<Key>::verif_constants();
